@@ -102,7 +102,7 @@ Section P.
 
   Definition body_ops (p : spkg D R) : list fop :=
     [Mkdir; OpenTrunc active; WriteFlush active (encD (fst p))]
-      ++ flat_map (fun rows => map (fun r => WriteFlush active (encR r)) rows ++ [WriteBuffered active []]) (snd p)
+      ++ flat_map (fun rows => map (fun r => WriteFlush active (encR r)) rows ++ [WriteFlush active []]) (snd p)
       ++ [Close active].
 
   Lemma stream_ops_split p : stream_ops p = body_ops p ++ [Rename active final].
@@ -116,6 +116,39 @@ Section P.
     apply in_app_iff in Ho as [Ho|[<-|[]]].
     - apply in_map_iff in Ho as [r [<- _]]. simpl. apply str_eqb_refl.
     - simpl. apply str_eqb_refl.
+  Qed.
+
+  (* at no point of the write sequence does anything wait in the file object's buffer: a flow that fails (or a process that
+     is killed) between any two operations leaves nothing behind that could reach the disk later *)
+  Definition no_buffering (o : fop) : bool := match o with WriteBuffered _ _ => false | _ => true end.
+
+  Lemma apply_op_unbuffered s o : no_buffering o = true -> buffered s = [] -> buffered (apply_op s o) = [].
+  Proof.
+    destruct o; simpl; intros N B; try reflexivity; try exact B; try discriminate.
+    destruct (fs_get (files s) p); exact B.
+  Qed.
+
+  Lemma run_ops_unbuffered ops : forall s, forallb no_buffering ops = true -> buffered s = [] -> buffered (run_ops ops s) = [].
+  Proof.
+    induction ops as [|o r IH]; intros s H B; [exact B|]. simpl in H. apply andb_true_iff in H as [H1 H2].
+    unfold run_ops in *. simpl. apply IH; [exact H2|apply apply_op_unbuffered; assumption].
+  Qed.
+
+  Lemma stream_ops_no_buffering p : forallb no_buffering (stream_ops p) = true.
+  Proof.
+    unfold Stream.stream_ops. simpl. rewrite forallb_app. apply andb_true_iff. split; [|reflexivity].
+    apply forallb_forall. intros o Ho. apply in_flat_map in Ho as [rows [_ Ho]].
+    apply in_app_iff in Ho as [Ho|[<-|[]]]; [|reflexivity]. apply in_map_iff in Ho as [r [<- _]]. reflexivity.
+  Qed.
+
+  Lemma in_firstn (A : Type) (k : nat) : forall (l : list A) x, In x (firstn k l) -> In x l.
+  Proof. induction k as [|k IH]; intros [|y l] x H; simpl in *; try tauto. destruct H as [->|H]; [now left|right; apply IH, H]. Qed.
+
+  Theorem never_buffered p k s0 : buffered s0 = [] -> buffered (run_ops (firstn k (stream_ops p)) s0) = [].
+  Proof.
+    intros B. apply run_ops_unbuffered; [|exact B].
+    apply forallb_forall. intros o Ho. pose proof (stream_ops_no_buffering p) as H. rewrite forallb_forall in H.
+    apply H. eapply in_firstn. exact Ho.
   Qed.
 
   (* C08: killed at any point before the final rename, no stream.ndjson appears *)
@@ -161,7 +194,7 @@ Section P.
   Qed.
 
   Definition res_ops (rss : list (list R)) : list fop :=
-    flat_map (fun rows => map (fun r => WriteFlush active (encR r)) rows ++ [WriteBuffered active []]) rss.
+    flat_map (fun rows => map (fun r => WriteFlush active (encR r)) rows ++ [WriteFlush active []]) rss.
 
   Lemma res_ops_writes rss : forallb is_write (res_ops rss) = true.
   Proof.
